@@ -34,7 +34,8 @@ def readerSuffix (t : Ty) (data : Bytes) (o : C12.DRes) : String :=
   else
     let base := viaOut t o.res
     let kinds : List (String × C12.RKind) :=
-      [("um", .buffer), ("rdr", .buffer), ("half", .half), ("one", .one), ("derr", .dataErr)]
+      [("um", .buffer), ("rdr", .buffer)] ++
+        (if C12.chunkingObserved t then [("half", .half), ("one", .one), ("derr", .dataErr)] else [])
     kinds.foldl (fun acc (name, k) =>
       let x := viaOut t (C12.decodeR k t data)
       if x = base then acc else acc ++ s!" {name}={x}") ""
